@@ -175,10 +175,10 @@ def main() -> int:
                  'hpl.rewrite.replace_var_with_this', 'hpl.ast.events.HplSimpleEvent.__attrs_post_init__/external_references')
     base = families.boolean_families(ck.tier, alias_heavy=True)
     slot = families.slot_family()
-    n_rand = 1500 if ck.tier == 'quick' else 20000
+    n_rand = 1500 if ck.tier == 'quick' else 12000
     rnd = families.uniq(families.random_specs(ck.seed + 13, n_rand * 2, 4 if ck.tier == 'quick' else 5))[:n_rand]
     fams = {}
-    step = 1 if ck.tier == 'thorough' else 3
+    step = 2 if ck.tier == 'thorough' else 3   # thorough also gets the larger families of boolean_families('thorough') (about 5x the quick trees)
     for name, specs in list(base.items()) + [('random(seed)', rnd)]:
         items = []
         for i, s in enumerate(specs[::step]):
